@@ -95,7 +95,13 @@ def _violations(prop: str, overlay) -> Tuple[set, Optional[str]]:
         per = {}
         for o in run.obligations:
             per[o.rule] = per.get(o.rule, 0) + 1
-        return {(o.rule, o.function, o.construct) for o in run.obligations if not o.ok}, None
+        floors_hit = []
+        failing = {o.rule for o in run.obligations if not o.ok}
+        for rid, fl in run.floors.items():
+            if per.get(rid, 0) < fl and rid not in failing:
+                floors_hit.append(f"rule {rid} below its floor")
+        errs = run.analysis_errors + floors_hit
+        return {(o.rule, o.function, o.construct) for o in run.obligations if not o.ok}, ("ANALYSIS-ERROR " + "; ".join(errs)[:300]) if errs else None
     except AnalysisError as e:
         return set(), f"ANALYSIS-ERROR {e}"
     except Exception as e:  # noqa
@@ -137,7 +143,10 @@ def _one(case) -> dict:
         got, err = _violations(prop, overlay)
         new = got - base
         if kind == "mutant":
-            if err and err.startswith("CRASH"):
+            if any(r == expect or r.startswith(expect) for r, _, _ in new):
+                hit = [x for x in new if x[0].startswith(expect)][0]
+                res["detail"] = f"{hit[0]} {hit[1]}: {hit[2][:80]}"
+            elif err and err.startswith("CRASH"):
                 res.update(status="failed", detail=f"{prop}: {err}")
             elif err:
                 # an analysis error is an acceptable way to refuse a tree (exit 2), but the mutant is not *named*
